@@ -184,6 +184,8 @@ CATALOGUE = [
     ("glyph-order-stale-reverse-map", "ttLib/ttFont.py", '        if hasattr(self, "_reverseGlyphOrderDict"):\n            del self._reverseGlyphOrderDict\n        if self.isLoaded("glyf"):', '        if self.isLoaded("glyf"):', "C17", "GlyphOrderHistory", "alarm"),
     ("deleted-table-resurrected", "ttLib/ttFont.py", "        if self.reader and tag in self.reader:\n            del self.reader[tag]\n", "", "C16", "TableAccessOrder", "alarm"),
     ("tag-order-dsig-not-last", "ttLib/ttFont.py", '            tagList.remove("DSIG")\n            tagList.append("DSIG")', '            pass', "C04", "SortedTagList", "alarm"),
+    ("ttpen-end-point-after-dropped-duplicate", "pens/ttGlyphPen.py", "                self._popPoint()\n                endPt -= 1", "                self._popPoint()", "C14", "TTGlyphPenSimpleGlyph", "alarm"),
+    ("ttpen-cubic-offcurves-as-quadratic", "pens/ttGlyphPen.py", "        for pt in points[:-1]:\n            self._addPoint(pt, flagCubic)", "        for pt in points[:-1]:\n            self._addPoint(pt, 0)", "C14", "TTGlyphPenSimpleGlyph", "alarm"),
     ("closure-memo-subset-spelling", "subset/__init__.py", "    if cur_glyphs.issubset(covered):\n        return\n    covered.update(cur_glyphs)\n\n    for st in self.SubTable:", "    if cur_glyphs <= covered:\n        return\n    covered.update(cur_glyphs)\n\n    for st in self.SubTable:", "C07", "LookupClosureMemo", "green"),
 ]
 
